@@ -452,8 +452,34 @@ func setEnv(c command_interface.CommandInterface, env string) {
 
 // ---- the ops --------------------------------------------------------------------------------
 
+// Another object of the same type is marshalled first and what it then holds (its AndX block, its parameter and data
+// blocks) is scribbled on: a fresh object must not be affected (package-level instances shared between objects).
+func smbDecoy(name string) {
+	defer func() { recover() }()
+	d := newCmd(name)
+	if _, err := d.Marshal(); err != nil {
+		return
+	}
+	if x := d.GetAndX(); x != nil {
+		x.AndXCommand, x.AndXReserved, x.AndXOffset = 0x2E, 0x5A, 0x7B3C
+	}
+	if p := d.GetParameters(); p != nil {
+		for i := range p.Words {
+			p.Words[i] ^= 0xA5A5
+		}
+	}
+	if dt := d.GetData(); dt != nil {
+		for i := range dt.Bytes {
+			dt.Bytes[i] ^= 0xA5
+		}
+	}
+}
+
 func smbEnc(a []string) string {
 	loadGenCmds()
+	if c13Used(a) {
+		smbDecoy(a[0])
+	}
 	c := newCmd(a[0])
 	setEnv(c, a[1])
 	b, err := c.Marshal()
